@@ -143,6 +143,15 @@ CHECKS.update({
         design="5/C19"),
 })
 
+CHECKS.update({
+    "C13": dict(
+        engine="tgv-ide",
+        technique=FORM_E + " over well-typed programs built by construction, and exhaustive single-fault seeding at every recorded site",
+        text="Valid programs (library + feature groups covering every construct of the core and one call of every operator form, alone, in pairs, all together, inside block wrappers, one- and two-file) must have no diagnostics at all; then every single fault of the classes the property lists is seeded at every eligible site recorded by the emitter and must produce a diagnostic covering the site in the seeded file and none in untouched files. The thorough tier audits the generator against llvm-tblgen 14 on the expressible subset (a disagreement is a machinery error, never a verdict).",
+        note="validity is by construction against the Programmer's Reference, audited with llvm-tblgen 14 where expressible",
+        design="5/C13"),
+})
+
 NOT_YET = {}
 
 def main():
